@@ -136,7 +136,10 @@ def thresholds(q):
     f = np.unique(q[np.isfinite(q)])
     out = set()
     if f.size:
-        out.update(((f[:-1] + f[1:]) / 2).tolist())
+        mids = (f[:-1] + f[1:]) / 2
+        if mids.size > 64:          # long vectors: 48 cuts spread evenly over the ranking (every cut of a 9001-long vector would be quadratic)
+            mids = mids[np.unique(np.linspace(0, mids.size - 1, 48).astype(int))]
+        out.update(mids.tolist())
         out.add(float(f[0]) - 1.0)
         out.add(float(f[-1]) * 1.5 + 1.0)
     out.update([-3.0, 1e300, 0.37])
@@ -208,7 +211,7 @@ def run(ctx):
     ctx.assume("('A', value): the documented two-element form is driven; keep(('A',)) cannot be unpacked and is not claimed",
                'thresholds never equal an attained value (docs: "below"; code: <=) and are finite', 'N >= 0 integer')
     ctx.require_events('FitInfo.keep:post', 'composition:twice', 'composition:looser-first', 'history:source-flags-changed')
-    ctx.require_regimes('has_nan', 'has_inf', 'has_ties', 'empty', 'long_vector')
+    ctx.require_regimes('vector:thousands-of-fits', 'has_nan', 'has_inf', 'has_ties', 'empty', 'long_vector')
     i = 0
     for n in range(0, nmax + 1):
         for vec in itertools.product(ALPHABET, repeat=n):
@@ -251,6 +254,10 @@ def run(ctx):
     for j in range(n_long):
         n = int(rng.choice([nmax + 1, 8, 30, 120, 500]))
         kind = rng.random()
+        if j % 40 == 3:
+            # a result that keeps a whole grid: thousands of ranked fits (not a multiple of any power of two up to 8192)
+            n, kind = (9001 if (ctx.quick or j % 80 == 3) else 70001), 0.5 + 0.4 * (j % 3 == 0)
+            ctx.regime('vector:thousands-of-fits')
         if kind < 0.4:
             vec = rng.choice(ALPHABET, n)
         elif kind < 0.8:
